@@ -13,7 +13,9 @@ CFGS = {
 CASE_RE = re.compile(r'^<<"CASE", (".*")>>$')
 
 
-def mc_codec(work, cfgs, emit, invariants="RoundTrip Walkable MatcherSound ProtoTop NormIdem", module="MCCodec", extra=""):
+def mc_codec(work, cfgs, emit, invariants="RoundTrip Walkable MatcherSound ProtoTop NormIdem", module="MCCodec", extra="",
+             sweep="SweepQuick"):
+    extra = "  LenSweep <- %s\n" % sweep + extra
     cfg = ('CONSTANTS\n  Env <- MCEnv\n  Cfgs = {%s}\n  Emit = %s\n%sSPECIFICATION Spec\nINVARIANTS %s EmitCase\nCHECK_DEADLOCK FALSE\n'
            % (", ".join('"%s"' % c for c in cfgs), "TRUE" if emit else "FALSE", extra, invariants))
     out, st = vlib.tlc(work, module, cfg, workers=vlib.NCPU, timeout=3000, heap="8g")
